@@ -103,7 +103,8 @@ theorem specOption_ok (d : Bytes) (o : GOpt) (n : Nat) (h : specOption d = .ok (
 theorem specOption_no_panic (d : Bytes) (k : PanicKind) : specOption d ≠ .panic k := by
   unfold specOption
   split
-  · split
+  · dsimp only
+    split
     · intro h; cases h
     · intro h; cases h
   · intro h; cases h
@@ -235,6 +236,7 @@ theorem decodeLoop_spec (data foreign : Bytes) :
     by_cases h0 : len = 0
     · subst h0
       simp [liftLoop]
+      rfl
     · have hpos : ((len : Nat) : Int) > 0 := by omega
       rw [if_pos hpos, if_neg h0, sliceFrom_le data offset hoff]
       simp only [Res.bind_ok]
@@ -328,6 +330,7 @@ theorem spec_no_panic (data : Bytes) (k : PanicKind) : spec data ≠ .panic k :=
   split
   · rename_i d0 d1 p0 p1 v0 v1 v2 d7 r0
     have hk := and_3f_le d0.toNat
+    dsimp only
     split
     · intro h; cases h
     · have := specLoop_no_panic (r0.length + 8) ((d0.toNat &&& 0x3f) * 4) r0 (by omega)
@@ -357,7 +360,8 @@ theorem specLoop_err : ∀ (fuel len : Nat) (d : Bytes) (e : String), specLoop f
         left
         unfold specOption at ho
         split at ho
-        · split at ho
+        · dsimp only at ho
+          split at ho
           · simp only [errTruncated, Res.err.injEq] at ho; exact ho.symm
           · cases ho
         · simp only [errTruncated, Res.err.injEq] at ho; exact ho.symm
